@@ -1,6 +1,9 @@
 //! C06 (equivalent entry points give equivalent answers).  Case kinds:
 //!   eth <hex>        from_ethernet vs from_ether_type on the bytes behind the
 //!                    Ethernet II header, four whole-packet families
+//!   sll <hex>        from_linux_sll vs from_ether_type on the bytes behind the SLL
+//!                    header (SlicedPacket, LaxPacketHeaders: the two families that
+//!                    have this entry point)
 //!   et4|et6 <hex>    from_ether_type(IPv4|IPv6) vs from_ip, four families
 //!   ipb <hex>        the IP boundary implementations (12 + Ipv6Slice::from_slice_lax)
 //!   rd:<T>[:n] <hex> T::read(Cursor) vs T::from_slice for the 17 header types
@@ -24,6 +27,8 @@ fn run(line: &str) -> String {
     let data = unhex(it.next().unwrap());
     if entry == "eth" {
         eth(&data)
+    } else if entry == "sll" {
+        sll(&data)
     } else if entry == "et4" {
         ett(&data, EtherType::IPV4)
     } else if entry == "et6" {
@@ -110,6 +115,55 @@ fn eth(data: &[u8]) -> String {
     } else {
         out.push("S.b=-".to_string());
     }
+    out.join(" ;; ")
+}
+
+// ---- group 1a, Linux SLL start ------------------------------------------------------
+/// `cls` = what LinuxSllHeader::from_slice makes of the first 16 bytes:
+/// short | reject | other | ether:<ether type>
+fn sll(data: &[u8]) -> String {
+    let mut out = Vec::new();
+    let sa = SlicedPacket::from_linux_sll(data);
+    let qa = LaxPacketHeaders::from_linux_sll(data);
+    out.push(format!("S.a={}", sliced(data, &sa, 0)));
+    out.push(format!(
+        "Q.a={}",
+        match &qa {
+            Ok(p) => f::lax_headers(data, p, 0),
+            Err(e) => format!("err {}", f::sll_slice_err(e)),
+        }
+    ));
+    let cls = match LinuxSllHeader::from_slice(data) {
+        Err(err::linux_sll::HeaderSliceError::Len(_)) => "short".to_string(),
+        Err(err::linux_sll::HeaderSliceError::Content(_)) => "reject".to_string(),
+        Ok((h, _)) => match h.protocol_type {
+            LinuxSllProtocolType::EtherType(et) => format!("ether:{}", et.0),
+            _ => "other".to_string(),
+        },
+    };
+    if let Some(ets) = cls.strip_prefix("ether:") {
+        let et = EtherType(ets.parse().unwrap());
+        let rest = &data[16..];
+        let sb = SlicedPacket::from_ether_type(et, rest);
+        let qb = LaxPacketHeaders::from_ether_type(et, rest);
+        out.push(format!("S.b={}", sliced(data, &sb, 16)));
+        out.push(format!("Q.b={}", f::lax_headers(data, &qb, 16)));
+        let qh = match &qa {
+            Ok(a) => {
+                if a.link_exts == qb.link_exts && a.net == qb.net && a.transport == qb.transport {
+                    "same"
+                } else {
+                    "DIFF"
+                }
+            }
+            _ => "-",
+        };
+        out.push(format!("Q.h={}", qh));
+    } else {
+        out.push("S.b=-".to_string());
+        out.push("Q.b=-".to_string());
+    }
+    out.push(format!("cls={}", cls));
     out.join(" ;; ")
 }
 
